@@ -2,6 +2,7 @@
 
 import importlib
 import json
+import os
 import sys
 import time
 import traceback
@@ -12,6 +13,14 @@ def main():
     import vf.repoenv  # noqa: F401  (binds ffcx to the repository under test)
     from vf.common import INCONCLUSIVE, jsonable
 
+    cov = None
+    if os.environ.get("VF_COVERAGE"):
+        # optional: record which lines of ffcx/ the workload executes (reported by tools/coverage_report.py)
+        import coverage
+
+        cov = coverage.Coverage(data_file=os.path.join(os.environ["VF_COVERAGE"], "cov"), data_suffix=True,
+                                source=[os.path.join(vf.repoenv.REPO, "ffcx")], branch=False)
+        cov.start()
     mod = importlib.import_module(f"vf.checks.{modname}")
     with open(fin) as f:
         cases = json.load(f)
@@ -33,6 +42,9 @@ def main():
             r["_dt"] = round(time.time() - t0, 3)
             out.write(json.dumps(jsonable(r)) + "\n")
             out.flush()
+    if cov is not None:
+        cov.stop()
+        cov.save()
 
 
 if __name__ == "__main__":
